@@ -67,6 +67,9 @@ AllStores == Stores \cup {TStore}
 
 VARIABLES
     kr, ke,          \* pruning options (chosen at Init)
+    spal,            \* the options are given to the store AFTER LoadVersion (SetPruning on the live
+                     \* store forwards them to the loaded sub-stores) instead of before it: the rule
+                     \* the sub-stores prune by is the same in both orders (varied when recording)
     (* durable *)
     disk,            \* disk[s] : saved IAVL versions of store s: version -> [c, tok]
     cinfo,           \* commit infos: version -> [s \in Stores -> [ver, tok]]
@@ -97,8 +100,8 @@ VARIABLES
 durable  == <<disk, cinfo, latest>>
 volatile == <<up, bricked, hver, htok, work, wops, tver, tvers, trans, pc, cids>>
 ghost    == <<blocks, committed, block, started, todo, crashes, dirty, budget, cplan>>
-vars     == <<kr, ke, durable, volatile, ghost, hist, fin>>
-view     == <<kr, ke, durable, volatile, ghost>>
+vars     == <<kr, ke, spal, durable, volatile, ghost, hist, fin>>
+view     == <<kr, ke, spal, durable, volatile, ghost>>
 
 -----------------------------------------------------------------------------
 (* maps: functions whose domain is the set of present keys *)
@@ -236,6 +239,7 @@ CrashPlans ==
 
 Init ==
     /\ \E p \in Prunings : kr = p[1] /\ ke = p[2]
+    /\ spal \in (IF Record THEN BOOLEAN ELSE {FALSE})
     /\ disk = [s \in Stores |-> [v \in {} |-> 0]]
     /\ cinfo = [v \in {} |-> 0]
     /\ latest = 0
@@ -271,7 +275,7 @@ DoOp(o) ==
 Write(o) ==
     /\ Go /\ up /\ Idle /\ todo = <<>> /\ ~started
     /\ Len(block) < budget
-    /\ UNCHANGED <<kr, ke, durable, up, bricked, hver, htok, tver, tvers, pc, cids,
+    /\ UNCHANGED <<kr, ke, spal, durable, up, bricked, hver, htok, tver, tvers, pc, cids,
                    blocks, committed, started, todo, crashes, dirty, budget, cplan>>
     /\ DoOp(o)
     /\ block' = Append(block, o)
@@ -280,7 +284,7 @@ Write(o) ==
 (* re-execution of the interrupted block after a crash: the same writes again *)
 ReExec ==
     /\ Go /\ up /\ Idle /\ todo # <<>>
-    /\ UNCHANGED <<kr, ke, durable, up, bricked, hver, htok, tver, tvers, pc, cids,
+    /\ UNCHANGED <<kr, ke, spal, durable, up, bricked, hver, htok, tver, tvers, pc, cids,
                    blocks, committed, block, started, crashes, dirty, budget, cplan>>
     /\ DoOp(Head(todo))
     /\ todo' = Tail(todo)
@@ -292,7 +296,7 @@ RefNext == [s \in Stores |-> ApplyOps(ContentAt(Len(committed))[s], OpsOf(s, blo
 CommitStart ==
     /\ Go /\ up /\ Idle /\ todo = <<>>
     /\ hver < MaxVer /\ Len(committed) < MaxVer + (IF started THEN 1 ELSE 0)
-    /\ UNCHANGED <<kr, ke, durable, up, bricked, hver, htok, work, wops, tver, tvers, trans,
+    /\ UNCHANGED <<kr, ke, spal, durable, up, bricked, hver, htok, work, wops, tver, tvers, trans,
                    block, todo, crashes, dirty, budget, cplan>>
     /\ pc' = [s \in AllStores |-> "todo"]
     /\ cids' = [s \in Stores |-> [ver |-> 0, tok |-> <<>>]]
@@ -316,7 +320,7 @@ CommitSave(s, tk) ==
     (* SaveVersion and the pruning delete are both inside iavl.Store.Commit: the next store is
        not saved before the previous one has pruned *)
     /\ "PruneBeforeFlush" \in Dev => \A t \in Stores \ {s} : pc[t] # "saved"
-    /\ UNCHANGED <<kr, ke, cinfo, latest, hver, htok, work, trans, ghost>>
+    /\ UNCHANGED <<kr, ke, spal, cinfo, latest, hver, htok, work, trans, ghost>>
     /\ LET v == tver[s] + 1 IN
        IF v \in tvers[s] THEN
            IF disk[s][v].tok = tk THEN
@@ -355,7 +359,7 @@ ToRelease(s) ==
 CommitPrune(s) ==
     /\ Go /\ up /\ s \in Stores
     /\ IF "PruneBeforeFlush" \in Dev THEN pc[s] = "saved" ELSE pc[s] = "post"
-    /\ UNCHANGED <<kr, ke, cinfo, latest, up, bricked, hver, htok, work, wops, tver, trans, cids, ghost>>
+    /\ UNCHANGED <<kr, ke, spal, cinfo, latest, up, bricked, hver, htok, work, wops, tver, trans, cids, ghost>>
     /\ pc' = [pc EXCEPT ![s] = IF "PruneBeforeFlush" \in Dev THEN "done" ELSE "idle"]
     /\ LET rel == ToRelease(s) IN
        /\ IF rel # 0
@@ -367,7 +371,7 @@ CommitPrune(s) ==
 (* transient.Store.Commit: a fresh MemDB *)
 CommitTransient ==
     /\ Go /\ up /\ pc[TStore] = "todo"
-    /\ UNCHANGED <<kr, ke, durable, up, bricked, hver, htok, work, wops, tver, tvers, cids, ghost>>
+    /\ UNCHANGED <<kr, ke, spal, durable, up, bricked, hver, htok, work, wops, tver, tvers, cids, ghost>>
     /\ trans' = EmptyMap
     /\ pc' = [pc EXCEPT ![TStore] = "done"]
     /\ Rec([a |-> "tcommit", w |-> ""])
@@ -377,7 +381,7 @@ CommitFlush ==
     /\ Go /\ up
     /\ pc[TStore] = "done"
     /\ \A s \in Stores : pc[s] = IF "PruneBeforeFlush" \in Dev THEN "done" ELSE "saved"
-    /\ UNCHANGED <<kr, ke, disk, up, bricked, work, wops, tver, tvers, trans, cids,
+    /\ UNCHANGED <<kr, ke, spal, disk, up, bricked, work, wops, tver, tvers, trans, cids,
                    blocks, committed, todo, crashes, dirty, cplan>>
     /\ LET v == hver + 1 IN
        /\ cinfo' = Extend(cinfo, v, cids)
@@ -395,7 +399,7 @@ Crash ==
     /\ Running /\ up /\ crashes < MaxCrashes
     /\ CrashPlan => MustCrash
     /\ CrashKind = "clean" => Idle
-    /\ UNCHANGED <<kr, ke, durable, bricked, blocks, committed, block, started, todo, budget, cplan>>
+    /\ UNCHANGED <<kr, ke, spal, durable, bricked, blocks, committed, block, started, todo, budget, cplan>>
     /\ up' = FALSE
     /\ VolatileReset
     /\ crashes' = crashes + 1
@@ -405,7 +409,7 @@ Crash ==
 (* NewStore + mounts + LoadLatestVersion on the durable state; also the very first open *)
 Reopen ==
     /\ Go /\ ~up /\ ~bricked
-    /\ UNCHANGED <<kr, ke, durable, blocks, committed, crashes, dirty, cplan>>
+    /\ UNCHANGED <<kr, ke, spal, durable, blocks, committed, crashes, dirty, cplan>>
     /\ LET r == LoadMS(latest)
            allowed == IF started THEN {Len(committed) - 1, Len(committed)} ELSE {Len(committed)} IN
        IF ~r.ok THEN
@@ -433,7 +437,7 @@ Reopen ==
 Finish ==
     /\ Record /\ ~fin /\ (Len(hist) >= HistLen \/ bricked)
     /\ fin' = TRUE
-    /\ UNCHANGED <<kr, ke, durable, volatile, ghost, hist>>
+    /\ UNCHANGED <<kr, ke, spal, durable, volatile, ghost, hist>>
 
 AnyOp == {Op(s, k, v, FALSE) : s \in AllStores, k \in Keys, v \in Vals}
          \cup {Op(s, k, "", TRUE) : s \in AllStores, k \in Keys}
@@ -458,9 +462,9 @@ PruningSeq == << <<0, 0>>, <<0, 1>>, <<0, 2>>, <<0, 3>>, <<1, 0>>, <<1, 1>>, <<1
                  <<2, 0>>, <<2, 1>>, <<2, 2>>, <<2, 3>>, <<100, 10000>> >>
 PruningsSel == {PruningSeq[i] : i \in PrunSel}
 (* CONSTRAINT of the recording configurations: one line per finished behaviour *)
-PrintHist == fin => PrintT(<<"HIST", ToJson([kr |-> kr, ke |-> ke, steps |-> hist])>>)
+PrintHist == fin => PrintT(<<"HIST", ToJson([kr |-> kr, ke |-> ke, spal |-> spal, steps |-> hist])>>)
 (* invariant wrapper for the deviation runs: print the recorded behaviour that violates P *)
-Witness(P) == P \/ (PrintT(<<"WITNESS", ToJson([kr |-> kr, ke |-> ke, steps |-> hist])>>) /\ FALSE)
+Witness(P) == P \/ (PrintT(<<"WITNESS", ToJson([kr |-> kr, ke |-> ke, spal |-> spal, steps |-> hist])>>) /\ FALSE)
 
 -----------------------------------------------------------------------------
 (* type and protocol sanity *)
